@@ -67,6 +67,12 @@ def groupby_inputs_sorted(p: Project, modname: str, fn, rep: Report, rule: str, 
                 if isinstance(v, ast.Call) and isinstance(v.func, ast.Name) and v.func.id == "sorted":
                     sb = _bind(v, ["iterable"])
                     sort_keys.append(sb.get("key"))
+                    if keep_order and sb.get("iterable") is not None:
+                        # what is sorted is everything the caller passed: a set / dict-key view of it drops repeats
+                        it = Expander(fn).x(sb["iterable"])
+                        dd = dotted(it.func) if isinstance(it, ast.Call) else None
+                        if isinstance(it, (ast.Set, ast.SetComp)) or dd in ("set", "frozenset", "dict.fromkeys", "OrderedDict.fromkeys", "collections.OrderedDict.fromkeys", "Counter", "collections.Counter"):
+                            ok, why = False, f"what is sorted and grouped is {text(it)[:60]}, which keeps one of several equal requests: a request the caller passed more than once is sent once, so the composed file does not carry one wrapper per request"
                     if any(k.arg == "reverse" for k in v.keywords):
                         pass
                     continue
